@@ -149,6 +149,9 @@ static void run() {
             uint64_t n = 1ull << acc.width;
             for (uint64_t v = 0; v < n; v++) {
                 if ((v >> 8) % a.nshards != a.shard) continue;
+#ifdef VP_LIGHT
+                if (acc.width == 24 && (v % 5) != 0 && (v & 0xff) != 0xff && (v & 0xff) != 0 && (v >> 16) != 0xff && (v >> 16) != 0x80 && (v >> 16) != 0x7f) continue;   // the additional build configurations sample the 24-bit values (all of them run in the main target)
+#endif
                 uint64_t raw = acc.kind == 's' ? sext(v, acc.width) : v;
                 check_acc(idx, (unsigned)(v % 8), raw);
                 vp::count();
